@@ -206,6 +206,15 @@ package revocation
 //@   property C10
 //@   inline
 
+//@ # decoding into an Update object replaces its events: the memoised product of the old events must go with them (prodinv is the invariant Product relies on)
+//@ func (*Update).uncompress
+//@   property C09 C10
+//@   safety
+//@   requires update != nil && c != nil
+//@   ensures[C09] reset: update.product == nil && update.productFrom == 0 && update.SignedAccumulator == c.SignedAccumulator && prodinv(update)
+//@   ensures events: c.E != nil ==> update.Events == c.E.Events
+//@   modifies update.SignedAccumulator, update.Events, update.product, update.productFrom
+
 //@ func (*Update).Prepend
 //@   property C10 C09
 //@   safety
@@ -216,7 +225,7 @@ package revocation
 //@   ensures sameacc: update.SignedAccumulator == old(update.SignedAccumulator)
 //@   ensures atomic: err != nil || len(eventlist.Events) == 0 ==> update.Events == old(update.Events) && update.product == old(update.product) && update.productFrom == old(update.productFrom) && val(update.product) == old(val(update.product))
 //@   ensures listkept: len(eventlist.Events) == old(len(eventlist.Events)) && forall i in 0..len(eventlist.Events) :: eventlist.Events[i] == old(eventlist.Events[i])
-//@   modifies update.Events, update.product, update.productFrom, update.SignedAccumulator, elems(eventlist.Events)
+//@   modifies update.Events, update.product, update.productFrom, update.SignedAccumulator
 //@   mustfail canary: err != nil
 
 
